@@ -29,7 +29,8 @@ RULE = ("family pm/k: random general setups × 2 frequency pairs (envelope, spec
         "threshold contour at relative offsets ±1e-12, ±1e-6, ±1e-2, 12 off-box pairs incl. ±1 ulp edges of every face of the box, 4 "
         "pairs just inside the box} × one (power, deff) scale pair log-uniform over 6 decades each; every other setup a 4×4 (6×6 "
         "thorough) grid for rates, efficiencies, Schmidt number, HOM visibility, two-source HOM of the setup against its rescaled copy "
-        "(free functions, both orders); thresholds 1e-2/1e-4/0.25 × 14 envelope targets around the threshold and in [thr, sqrt(thr))")
+        "(free functions, both orders); thresholds 1e-2/1e-4/0.25 × 14 envelope targets around the threshold and in [thr, sqrt(thr)); every 4th setup a sequence of 11 "
+        "(power, deff) variants down to 1e-6 mW / 1e-6 pm/V and differing in the 5th–8th digit, fresh JointSpectrum each, shuffled, re-checked")
 RESIDUAL = ("finiteness inside the transmission window (non-vanishing of A1, A2, denom1·denom2, no overflow in exp) is checked by "
             "evaluation only; floating-point rounding is measured (linearity ≤ ~1e-15, invariance ≤ ~1e-13)")
 TRUSTED_EXTRA = ["tools/props/_pmtol.py: complex-aware comparison (|Δ| relative to the modulus / to the absolute quadrature sum)"]
